@@ -35,6 +35,27 @@ pub open spec fn first_index(b: Seq<ContextBinding>, id: usize) -> int
     if b.len() == 0 { 0 } else if b[0].var.id == id { 0 } else { 1 + first_index(b.subrange(1, b.len() as int), id) }
 }
 
+/// the first index is k if position k carries the id and no earlier position does
+pub proof fn lemma_first_index(b: Seq<ContextBinding>, id: usize, k: int)
+    requires
+        0 <= k < b.len(),
+        b[k].var.id == id,
+        forall|j: int| 0 <= j < k ==> (#[trigger] b[j]).var.id != id,
+    ensures
+        first_index(b, id) == k,
+    decreases k,
+{
+    if k > 0 {
+        let t = b.subrange(1, b.len() as int);
+        assert(t[k - 1] == b[k]);
+        assert forall|j: int| 0 <= j < k - 1 implies (#[trigger] t[j]).var.id != id by {
+            assert(t[j] == b[j + 1]);
+        }
+        lemma_first_index(t, id, k - 1);
+        assert(b[0].var.id != id);
+    }
+}
+
 /// the last instruction is an indirect jump through a register holding `target`
 pub open spec fn jumps_to(c: Code, s: St, target: u64) -> bool {
     match c {
